@@ -344,6 +344,10 @@ func (x *Exec) frameObligations(out, entry *State, penv *SpecEnv) {
 				conds = append(conds, Not(Eq(r, rr)))
 			}
 			x.check(out, "frame", nil, x.fn.Pos(), "only declared objects change in "+name, Implies(And(conds...), Eq(Select(after, r), Select(before, r))))
+			for _, f := range mods.fromOf(name) {
+				i := x.fresh("fi", SInt)
+				x.check(out, "frame", nil, x.fn.Pos(), "only the declared positions change in "+name, Implies(Lt(i, f.lo), Eq(Select(Select(after, f.ref), i), Select(Select(before, f.ref), i))))
+			}
 		}
 	}
 }
